@@ -80,8 +80,10 @@ def check_merge(sa, sb, ha, hb, label, reload_right=False):
     above = chain[1:-1] if local_param else chain[1:]
     sparse_above = [t for t in above if t in ("SparselyBin", "Categorize")]
     if sparse_above:
-        direct = (not local_param) and chain[-1] == sparse_above[-1]
-        under = "%s with no shared key (%s)" % (sparse_above[-1], "content type" if direct else "nested structure")
+        # only the *direct* child type of a sparse container is declared (bins:type); anything deeper - including the
+        # content type of a nested sparse container - is hidden by the outermost sparse ancestor when it shares no key
+        direct = (not local_param) and len(sparse_above) == 1 and chain[-1] == sparse_above[-1]
+        under = "%s with no shared key (%s)" % (sparse_above[0], "content type" if direct else "nested structure")
     else:
         under = chain[-1] if len(chain) > 1 else "root"
     for op in ("a+b", "b+a", "a+=b", "b+=a"):
@@ -170,6 +172,14 @@ def _tree(task):
         if tier != "quick":
             acc.add(check_merge(spec, ns, h1, h1, label, reload_right=True))
             acc.n("merge_attempts", 4)
+    # Select forwards attribute look-ups to its cut, so a Select wrapping the very same tree looks like that tree to any
+    # merge that checks attributes instead of types
+    wrapped = {"t": "Select", "q": "s", "v": spec}
+    for ha, hb in states[:3]:
+        acc.add(check_merge(spec, wrapped, ha, hb, "type:%s->Select" % spec["t"]))
+        acc.n("merge_attempts", 4)
+        acc.n("foreign_root_attempts", 4)
+        acc.distinct("cases", FW.hkey((S.key(spec), "wrapped", len(ha), len(hb))))
     for f in FOREIGN:
         if f["t"] == spec["t"]:
             continue
